@@ -721,7 +721,7 @@ def call(s, op, p, dst, decls):
 @FGm
 def intrinsic(s, nm, rty, args):
     g = s.g; av = [v for _, v in args]
-    if nm.startswith(('llvm.lifetime.', 'llvm.dbg.', 'llvm.experimental.noalias', 'llvm.invariant.')): return None
+    if nm.startswith(('llvm.lifetime.', 'llvm.dbg.', 'llvm.experimental.noalias', 'llvm.invariant.', 'llvm.prefetch.')): return None
     if nm.startswith(('llvm.memcpy.', 'llvm.memmove.')):
         e = s.typed_memcpy(av[0], av[1], av[2], nm.startswith('llvm.memmove.'))
         if e is not None: s.emit(e); return None
@@ -928,10 +928,34 @@ def translate(m, roots):
         # functions referenced as values
         for c in sorted(g.used_globals):
             if c in m.funcs and c not in seen: todo.append(c)
+    # static initialisers (llvm.global_ctors), in order; iostream's ios_base::Init registration is skipped (no stream is used)
+    ctors = []
+    for ln in m.gorder:
+        if ln.startswith('@llvm.global_ctors'):
+            for fn in re.findall(r'void \(\)\* (@[-\w.$]+)', ln):
+                body = ' '.join(i for _, b in m.funcs[fn].blocks for i in b) if fn in m.funcs else 'ios_base4Init'
+                if 'ios_base4Init' in body: continue
+                ctors.append(fn)
+    todo = list(ctors)
+    while todo:
+        fn = todo.pop()
+        if fn in seen or fn not in m.funcs: continue
+        seen.add(fn); before = set(g.called)
+        hdr, body = FG(g, m.funcs[fn]).gen()
+        protos.append(hdr + ';'); bodies.append(body)
+        for c in sorted(g.called - before): todo.append(c)
+    protos.append('void rt_global_ctors(void);')
+    bodies.append('void rt_global_ctors(void) { %s }\n' % ' '.join('%s();' % fname(c) for c in ctors))
+    g.stats['global_ctors'] = len(ctors)
     ext = sorted(c for c in (g.called | g.used_globals) if c in m.decls and c not in m.funcs)
+    EXC = r'@_ZNSt(9exception|11logic_error|16invalid_argument|12length_error|12out_of_range|13runtime_error|14overflow_error|11range_error|12domain_error|15underflow_error)[CD][12]E'
     for c in ext:
         ret, args, va = m.decls[c]
-        a = ', '.join(g.cty(t) for t in args) or 'void'
+        a = ', '.join('%s a%d' % (g.cty(t), i) for i, t in enumerate(args)) or 'void'
+        if re.match(EXC, c) and g.cty(ret) == 'void':
+            # std exception constructors/destructors (bodies live in libstdc++.so): message text is not part of any property
+            protos.append('void %s(%s);' % (fname(c), a)); bodies.append('void %s(%s) { }\n' % (fname(c), a)); g.stats['stubbed_exception_ctor_dtor'] += 1
+            continue
         protos.append('%s %s(%s%s);' % (g.cty(ret), fname(c), a, ', ...' if va else ''))
     # globals (iterate: initializers may reference more globals)
     gdefs = {}; gl = {}
